@@ -1666,8 +1666,13 @@ class Engine:
             v = self.coerce_local(tgt.id, v)
             return k(st.bind(tgt.id, v))
         if isinstance(tgt, (ast.Tuple, ast.List)):
-            if isinstance(v, Row) and False:
-                pass
+            if isinstance(v, RowVec):
+                # ``a, b = arr2d[i]``: unpacking one row of a plain 2-D array; its width must be the number of targets
+                w = v.n
+                self.oblige("safety", "row unpacked into as many names as it has columns", st,
+                            w == len(tgt.elts), node)
+                arr2 = self.heap_field(st.heap, v.base, v.field)
+                v = tuple(sel2(arr2, v.idx, v.lo + j) for j in range(len(tgt.elts)))
             if isinstance(v, Opq):
                 gi = z3.Function("getitem", V, V, V)
                 v = tuple(Opq(gi(v.t, int2v(z3.IntVal(i)))) for i in range(len(tgt.elts)))
@@ -1757,7 +1762,21 @@ class Engine:
             if isinstance(idx, str):
                 raise Unsupported("whole-column store")
             if base.field is None:
-                raise Unsupported("whole-row store")
+                # ``dst[i] = src[j]``: a whole structured row is copied, field by field (both arrays must declare the same fields)
+                if not isinstance(v, Row):
+                    raise Unsupported("whole-row store of a non-row value")
+                i = self.to_int(idx)
+                ii = self.norm_index(i, base.n)
+                self.oblige("safety", "store index in range", st, z3.And(0 <= ii, ii < base.n), node)
+                dst_sorts = st.heap[base.base].get("#sorts", {})
+                src_sorts = st.heap[v.base].get("#sorts", {})
+                if dict(dst_sorts) != dict(src_sorts):
+                    raise Unsupported("whole-row store between arrays of different declared dtypes")
+                for f in dst_sorts:
+                    src = self.heap_field(st.heap, v.base, f)
+                    dst = self.heap_field(st.heap, base.base, f)
+                    st = st.with_cell(base.base, f, z3.Store(dst, base.lo + ii, z3.Select(src, v.idx)))
+                return k(st)
             i = self.to_int(idx)
             ii = self.norm_index(i, base.n)
             self.oblige("safety", "store index in range", st, z3.And(0 <= ii, ii < base.n), node)
